@@ -53,7 +53,7 @@ class C16(Harness):
 
         k = cell["kind"]
         ni = choice("ni", 2, 3)
-        nc = 2 if k in ("concatenator", "tabularizer", "column-ensemble") else 1
+        nc = 2 if k in ("concatenator", "tabularizer", "column-ensemble", "row") else 1  # (two columns: a batch of two instances is then "square")
         if k in ("padding", "truncation"):
             lens = [choice("len%d" % i, 2, 3) for i in range(ni)]
         else:
